@@ -198,3 +198,46 @@ Definition mcomplete (M : tbl Q) (order : list Z) : Prop :=
   forall a b, In a order -> In b order -> a <> b -> tget2 a b M <> None.
 Definition msymmetric (M : tbl Q) (order : list Z) : Prop :=
   forall a b, In a order -> In b order -> a <> b -> (mval M a b == mval M b a)%Q.
+
+(* ---- path distances in the trees built by UPGMA / NJ (lengths in Q) ---- *)
+Fixpoint qhas (a : Z) (t : qtree) : bool :=
+  match t with
+  | QT _ x _ ks => match ks with [] => oz_eqb x (Some a) | _ => existsb (qhas a) ks end
+  end.
+
+Definition qlen0 (t : qtree) : Q :=
+  match t with QT _ _ l _ => match l with Some q => q | None => 0%Q end end.
+
+(* sum of the edge lengths from the root of t down to the leaf carrying a (t's own edge not counted) *)
+Fixpoint qdown (a : Z) (t : qtree) : option Q :=
+  match t with
+  | QT _ x _ ks =>
+    match ks with
+    | [] => if oz_eqb x (Some a) then Some 0%Q else None
+    | _ => first_some (fun k => match qdown a k with Some d => Some (d + qlen0 k)%Q | None => None end) ks
+    end
+  end.
+
+Fixpoint qlca (a b : Z) (t : qtree) : option qtree :=
+  if qhas a t && qhas b t then
+    match t with
+    | QT _ _ _ ks => match first_some (qlca a b) ks with Some r => Some r | None => Some t end
+    end
+  else None.
+
+(* sum of the edge lengths on the path between the leaves carrying a and b *)
+Definition qdist (t : qtree) (a b : Z) : option Q :=
+  match qlca a b t with
+  | Some r => match qdown a r, qdown b r with Some x, Some y => Some (x + y)%Q | _, _ => None end
+  | None => None
+  end.
+
+(* stored distance between two UPGMA pool nodes *)
+Definition ud (u v : unode) : Q := qdef (u_d u) (u_id v).
+
+(* the three-point condition: M is an ultrametric on the taxa of `order`
+   (d(x,z) <= max (d(x,y), d(y,z)) for distinct x, y, z) *)
+Definition ultrametric3 (M : tbl Q) (order : list Z) : Prop :=
+  forall x y z, In x order -> In y order -> In z order -> x <> y -> y <> z -> x <> z ->
+    (mval M x z <= mval M x y)%Q \/ (mval M x z <= mval M y z)%Q.
+
